@@ -112,8 +112,8 @@ def check_tree(t, cl, P, m, is_set, what, ctx, sizes=True):
             fail('%s: a stored key is not found by lookup' % what, ctx)
 
 
-def mutate(t, m, P, a, op, is_set, what, ctx):
-    x = K(a['x'])
+def mutate(t, m, P, a, op, is_set, what, ctx, x=None):
+    x = K(a['x']) if x is None else x
     grp = 'write' if op < 3 else 'del'
     o = op if op < 3 else op - 3
     if is_set:
@@ -146,7 +146,14 @@ def _state_step(P, ks, a, op, none0, conc):
     built = {}
     for impl in ('c', 'py'):
         Pi = dict(P, impl=impl)
-        t, m, kobj = prestate(Pi, ks, none0, kk)
+        try:
+            t, m, kobj = prestate(Pi, ks, none0, kk)
+        except common.Fail:
+            raise
+        except Exception as e:      # noqa
+            # the pre-state is the state (__getstate__ form) of a tree that a real history produced: loading it IS the property
+            fail('the state of a reachable tree is rejected by __setstate__ (%s: %s)' % (type(e).__name__, str(e)[:80]), dict(ctx, impl=impl))
+            return
         if P.get('stored'):
             shapes.tag_all(t)       # every node has an oid, as in a stored tree
         built[impl] = (t, m, cls_of(P, impl))
@@ -155,6 +162,8 @@ def _state_step(P, ks, a, op, none0, conc):
     npy = norm(built['py'][0], built['py'][2], is_set, {})
     if nc != npy:
         fail('C and Python __getstate__ differ for the same container', ctx)
+    xkey = K(a['x'])
+    post = {}
     for src in ('c', 'py'):
         t, m, cl_s = built[src]
         for dst in ('c', 'py'):
@@ -172,7 +181,11 @@ def _state_step(P, ks, a, op, none0, conc):
             if norm(t2, cl_d, is_set, {}) != nc and not ctx['embedded_nonroot']:
                 fail('%s: state of the reloaded container differs from the original state' % what, c)
             m2 = m.copy()
-            mutate(t2, m2, P, a, op, is_set, what, c)
+            mutate(t2, m2, P, a, op, is_set, what, c, xkey)
+            if P.get('stored'):
+                # the same operation on the same state: the serialized forms of the four results must agree
+                shapes.tag_all(t2)
+                post[(src, dst)] = norm(t2, cl_d, is_set, {})
             check_tree(t2, cl_d, dict(P, impl=dst), m2, is_set, what + ', then one operation', c, sizes=False)
             # the source is untouched by all this
             check_tree(t, cl_s, dict(P, impl=src), m, is_set, 'original after its state was read', c, sizes=False)
@@ -184,6 +197,9 @@ def _state_step(P, ks, a, op, none0, conc):
         else:
             check_tree(t3, built['c'][2] if type(t3) is built['c'][2][kind] else cl_s, dict(P, impl=src), m, is_set,
                        'copy.copy of ' + src, dict(ctx, src=src), sizes=False)
+    if len(set(post.values())) > 1:
+        fail('after the same follow-up operation on the same loaded state the serialized states of the C and the Python container differ',
+             dict(ctx, op=op), sorted((k_, v_ == post[('c', 'c')]) for k_, v_ in post.items()))
     witness(P, conc, none0, is_set, ctx)
 
 
